@@ -596,7 +596,9 @@ def bind_strategy(draw: Any) -> dict:
         port = draw(st.integers(20000, 60999))
         binds.append({"shape": shape, "host4": host4, "port": port,
                       "name": draw(st.text(alphabet="abcxyzuni019_-. :", min_size=1, max_size=10)),
-                      "fdkind": draw(st.sampled_from(["tcp4", "tcp6", "unix", "udp4"]))})
+                      "fdkind": draw(st.sampled_from(["tcp4", "tcp6", "unix", "udp4"])),
+                      # unix: a socket file of an earlier run is still lying at the path
+                      "stale": draw(st.sampled_from([False, False, True]))})
     return {"binds": binds, "sock_type": draw(st.sampled_from(["stream", "stream", "dgram"])),
             "workers": draw(st.integers(1, 3))}
 
@@ -629,6 +631,11 @@ def run_binds(case: dict) -> CaseInfo:
                 expect.append((socket.AF_INET6, ("::1", 8000)))
             elif sh == "unix":
                 path = os.path.join(tmp, f"{i}-{b['name']}.sock")
+                if b.get("stale"):
+                    old_sock = socket.socket(socket.AF_UNIX, socket.SOCK_STREAM)
+                    old_sock.bind(path)
+                    old_sock.close()  # the file stays behind, as after a crash
+                    classes.append("stale_socket_file")
                 strings.append("unix:" + path)
                 expect.append((socket.AF_UNIX, path))
             elif sh == "unix_rel":  # relative to the working directory (the case's scratch dir)
@@ -663,7 +670,9 @@ def run_binds(case: dict) -> CaseInfo:
         except OSError as e:
             import errno
 
-            if e.errno in (errno.EADDRINUSE, errno.EADDRNOTAVAIL):
+            tcp = any(b["shape"] in ("v4port", "v4bare", "v6port", "v6bare")
+                      for b in case["binds"])
+            if e.errno in (errno.EADDRINUSE, errno.EADDRNOTAVAIL) and tcp:
                 raise Inconclusive(f"address unavailable in sandbox: {e}")
             raise Violation("bind_failed", f"{strings}: {e!r}")
         if want_type_error:
